@@ -77,6 +77,7 @@ impl<T: El> SetMon<T> {
         if let Some(o) = &st.old {
             if o.cursor_remaining != o.table.len {
                 return Err(Viol {
+                    extra: Vec::new(),
                     prop: "C05",
                     more: if o.cursor_remaining > o.table.len { cursor_more(op.code) } else { &[] },
                     msg: format!("cached iterator believes {} elements remain but the old table holds {} after {}", o.cursor_remaining, o.table.len, op.encode()),
@@ -771,8 +772,16 @@ pub fn sets(a: &Args, rep: &mut Report) {
     let small = cfg!(miri);
     // forgetting an iterator leaks by design: keep it out of runs watched by a leak detector
     let noforget = a.has("noforget") || cfg!(miri);
+    let skip = a.u64("skip", 0);
+    let progress = a.map.get("progress").cloned();
     for h in 0..sh.n {
         let mut hr = rng.fork();
+        if h < skip {
+            continue;
+        }
+        if let Some(pf) = &progress {
+            let _ = std::fs::write(pf, h.to_string());
+        }
         let elem = *hr.pick(&[ElemKind::U64, ElemKind::TrInline, ElemKind::TrHeap]);
         let mode = *hr.pick(&[HMode::Good, HMode::Good, HMode::Identity, HMode::SameGroup, HMode::SameTag, HMode::LowEntropy, HMode::Const]);
         let slow = matches!(mode, HMode::Const | HMode::LowEntropy | HMode::SameGroup);
